@@ -268,6 +268,7 @@ fn main() {
         Some("stake") => cmd_stake(&a),
         Some("chain") => cmd_chain(&a),
         Some("vmcost") => cmd_vmcost(&a),
+        Some("deepchild") => vm::deep_child(a.u64("k", 1000) as usize),
         _ => {
             eprintln!("usage: harness <vm|...> [--key value]...");
             std::process::exit(2);
